@@ -279,5 +279,5 @@ def representation_cases():
 def parts(tier):
     quick = tier != 'thorough'
     return [Part('value-representations', run, cases=representation_cases, exhaustive=True),
-            Part('policies', run, strategy=case_strategy, examples=3000 if quick else 200000),
-            Part('sequences', run_sequence, strategy=sequence_strategy, examples=1000 if quick else 50000)]
+            Part('policies', run, strategy=case_strategy, examples=3000 if quick else 100000),
+            Part('sequences', run_sequence, strategy=sequence_strategy, examples=1000 if quick else 25000)]
